@@ -196,6 +196,7 @@ type c17ScnRun struct {
 	Recs   []c17Rec
 	Segs   []c17Seg
 	Unsafe bool
+	IOErr  bool
 	Left   []string
 	Stuck  bool
 }
@@ -238,7 +239,7 @@ func c17RunScn(dir string, sc c17Scn) (c17ScnRun, error) {
 		}
 		r := o.apply(sys.svc)
 		if c17EnvError(r) {
-			run.Unsafe = true
+			run.IOErr = true
 		}
 		run.Lines = append(run.Lines, "iam call "+o.enc())
 		run.Obs = append(run.Obs, r)
@@ -276,7 +277,7 @@ func c17RunScn(dir string, sc c17Scn) (c17ScnRun, error) {
 			t.ret = clock
 			clock++
 			if c17EnvError(t.res) {
-				run.Unsafe = true
+				run.IOErr = true
 			}
 			run.Recs = append(run.Recs, c17Rec{t.inv, t.ret, t.op, t.res, len(run.Lines) - 1})
 		}
@@ -556,8 +557,11 @@ func c17Conc(a lib.Args, res *lib.Result) error {
 			defer func() { <-sem }()
 			for try := 0; try < 4; try++ {
 				runs[i], errs[i] = c17RunScn(filepath.Join(a.Work, "c17-conc", strconv.Itoa(i)), scns[i])
-				if errs[i] != nil || !runs[i].Unsafe {
+				if errs[i] != nil || !(runs[i].Unsafe || runs[i].IOErr) {
 					return
+				}
+				if runs[i].IOErr {
+					c17RetryPause(try)
 				}
 			}
 		}(i)
@@ -573,6 +577,7 @@ func c17Conc(a lib.Args, res *lib.Result) error {
 	for i, sc := range scns {
 		at[i] = len(lines)
 		lines = append(lines, runs[i].Lines...)
+		lines = append(lines, "iam quiet")
 		lines = append(lines, c17LinLine(sc.Init, runs[i].Recs))
 	}
 	out, err := a.Driver.AskParallel(lines, 1) // stateful: one driver
@@ -580,6 +585,8 @@ func c17Conc(a lib.Args, res *lib.Result) error {
 		return err
 	}
 	seen := map[string]bool{}
+	var pending []c17ClassifyItem
+	var pendingFail []lib.Failure
 	for i, sc := range scns {
 		run := runs[i]
 		eff, _ := json.Marshal(run.Eff)
@@ -610,10 +617,20 @@ func c17Conc(a lib.Args, res *lib.Result) error {
 			res.Fail(lib.Failure{Kind: "property", Signature: "iam:store:leftover-files", What: "files besides users.json and its backup remain in the IAM directory: " + strings.Join(run.Left, ","), Input: sc})
 		}
 		mout := out[at[i] : at[i]+len(run.Lines)]
-		verdict := out[at[i]+len(run.Lines)]
+		quiet := out[at[i]+len(run.Lines)] == "1"
+		verdict := out[at[i]+len(run.Lines)+1]
+		if quiet {
+			res.Histogram["conc:side-condition-of-partial-theorems:holds"]++
+		} else {
+			res.Histogram["conc:side-condition-of-partial-theorems:violated"]++
+		}
+		if quiet && verdict != "ok" {
+			res.Fail(lib.Failure{Kind: "property", Signature: "iam:violation-on-quiet-schedule", What: "the schedule satisfies the side condition of Props.C17.lookup_after_ack_partial (quietRunB) and is still rejected by the oracle", Input: sc,
+				Impl: strings.Join(run.Obs, " "), Model: strings.Join(mout[1:], " ")})
+		}
 		if verdict != "ok" {
-			sig, what := c17Classify(a.Driver, sc.Init, run.Recs, c17Evidence{V: v, Script: run.Lines, Segs: run.Segs})
-			res.Fail(lib.Failure{Kind: "property", Signature: sig, What: "the observed history is not linearizable w.r.t. the plain account map: " + what, Input: sc,
+			pending = append(pending, c17ClassifyItem{sc.Init, run.Recs, c17Evidence{V: v, Script: run.Lines, Segs: run.Segs}})
+			pendingFail = append(pendingFail, lib.Failure{Kind: "property", What: "the observed history is not linearizable w.r.t. the plain account map: ", Input: sc,
 				Impl: strings.Join(run.Obs, " "), Model: strings.Join(mout[1:], " ")})
 		}
 		// observation by observation (line 0 is the reset)
@@ -624,6 +641,11 @@ func c17Conc(a lib.Args, res *lib.Result) error {
 				break
 			}
 		}
+	}
+	for i, c := range c17ClassifyAll(a.Driver, pending) {
+		f := pendingFail[i]
+		f.Signature, f.What = c[0], f.What+c[1]
+		res.Fail(f)
 	}
 	os.RemoveAll(filepath.Join(a.Work, "c17-conc"))
 	return nil
@@ -663,6 +685,7 @@ func c17Free(a lib.Args, res *lib.Result) error {
 		mode c17Mode
 	}
 	var frs []fr
+	retries := 0
 	for i := 0; i < n; i++ {
 		mode := c17Mode{Cache: r.Chance(80)}
 		init := c17GenInit(r)
@@ -708,6 +731,18 @@ func c17Free(a lib.Args, res *lib.Result) error {
 			res.Fail(lib.Failure{Kind: "property", Signature: "iam:store:leftover-files", What: "files besides users.json and its backup remain: " + strings.Join(left, ","), Input: map[string]interface{}{"stage": "free", "records": recs}})
 		}
 		sys.close()
+		ioerr := false
+		for _, rc := range recs {
+			ioerr = ioerr || c17EnvError(rc.Res)
+		}
+		if ioerr && retries < 3 {
+			c17RetryPause(retries)
+			retries++
+			i--
+			res.Histogram["free:repeated:io-error"]++
+			continue
+		}
+		retries = 0
 		frs = append(frs, fr{init, recs, mode})
 		lines = append(lines, c17LinLine(init, recs))
 	}
